@@ -38,12 +38,12 @@ Matches(e) ==
 IsEvent(name) == l <= Len(TraceLog) /\ TraceLog[l].ev = name /\ l' = l + 1
 
 TReset == /\ (IsEvent("reset") \/ IsEvent("abort"))
-          /\ base' = 0 /\ sess' = 1 /\ head' = 0 /\ acc' = {} /\ pool' = {} /\ queue' = [h \in Hdrs |-> 0] /\ pend' = [p \in Peers |-> <<>>] /\ done' = {}
+          /\ lastsz' = 0 /\ base' = 0 /\ sess' = 1 /\ head' = 0 /\ acc' = {} /\ pool' = {} /\ queue' = [h \in Hdrs |-> 0] /\ pend' = [p \in Peers |-> <<>>] /\ done' = {}
           /\ slot' = [n \in Nums |-> NilSlot] /\ offset' = 0 /\ lacks' = [p \in Peers |-> {}] /\ faults' = 0
           /\ broken' = FALSE /\ delivered' = <<>> /\ old' = old /\ hist' = hist
 
 TInit == /\ IsEvent("Init")
-         /\ LET a == TraceLog[l].args IN a.n = N /\ a.fl = FL /\ a.forkfrom = ForkFrom /\ a.w = W /\ a.body = Body /\ a.maxp = MaxProc
+         /\ LET a == TraceLog[l].args IN a.memcap = MemCap /\ a.n = N /\ a.fl = FL /\ a.forkfrom = ForkFrom /\ a.w = W /\ a.body = Body /\ a.maxp = MaxProc
          /\ UNCHANGED vars
 
 TSkip == /\ IsEvent("Complete") /\ UNCHANGED vars
@@ -56,7 +56,7 @@ Act(e) == LET a == e.args IN
      [] e.ev = "Deliver"  -> /\ DeliverCore(a.p, a.items)
                              /\ e.res.acc = (IF pend[a.p] = <<>> THEN 0 ELSE Matched(pend[a.p], a.items, 1))
                              /\ (e.res.err = "nofetch") <=> (pend[a.p] = <<>>)
-                             /\ UNCHANGED <<base, sess, head, acc, offset, broken, delivered, old, faults, hist>>
+                             /\ UNCHANGED <<lastsz, base, sess, head, acc, offset, broken, delivered, old, faults, hist>>
      [] e.ev = "Reset"    -> Reset(a.o)
      [] e.ev = "Cancel"   -> Cancel(a.p)
      [] e.ev = "Expire"   -> Expire(a.p)
